@@ -1,5 +1,6 @@
 import TIV.C15.Model
 /-! helper lemmas for C15: the freshness invariant and its preservation -/
+set_option linter.unusedSimpArgs false
 namespace TIV.C15
 
 /-- the cell cache as filled for window `l` with settings `swap`, `q` -/
@@ -427,106 +428,122 @@ theorem getCellRatio_cases (T : Term) (s : Core) :
   · exact Or.inr ⟨rfl, getCellSize_reads T s⟩
 
 theorem inv_step (sc stt : Bool) (T : Term) (s : St) (g gt : Option Win) (op : Op) (hI : Inv sc stt T s.toCore g gt)
-    (hp : readsCell (step T s op).2.2 = true → sc = true → provisoAt g s.win)
+    (hp : readsCell (step T s op).2.2 = true → sc = true → provisoAt g (readWin s op))
     (hpt : (op = .tsc ∨ op = .tscRaise) → stt = true → provisoAt gt s.win)
-    (hr : ∀ w, op = .resize w → w.ok) :
+    (hr : ∀ w, (op = .resize w ∨ ∃ p, op = .getCellSizeR p w) → w.ok) :
     Inv sc stt T (step T s op).1.toCore (ghostStep T s g op) (tscGhostStep s gt op) := by
   cases op with
   | resize w =>
-    simp only [step, ghostStep, effectiveToggle, tscGhostStep, readsCell_nil, Bool.false_eq_true, if_false]
-    exact { winOk := hr w rfl, gOk := hI.gOk, cell := hI.cell, colors := hI.colors, nv := hI.nv, tsc := hI.tsc
+    simp only [step, ghostStep, readWin, effectiveToggle, tscGhostStep, readsCell_nil, Bool.false_eq_true, if_false]
+    exact { winOk := hr w (Or.inl rfl), gOk := hI.gOk, cell := hI.cell, colors := hI.colors, nv := hI.nv, tsc := hI.tsc
             rColors := hI.rColors, rNv := hI.rNv, rProbe := hI.rProbe, ratio := hI.ratio }
   | swapOn =>
     cases hs : s.swap
-    · simp [step, ghostStep, effectiveToggle, tscGhostStep, hs]
+    · simp [step, ghostStep, readWin, effectiveToggle, tscGhostStep, hs]
       exact inv_toggle_swap sc stt T s.toCore g gt true hI
-    · simp [step, ghostStep, effectiveToggle, tscGhostStep, hs, readsCell_nil]
+    · simp [step, ghostStep, readWin, effectiveToggle, tscGhostStep, hs, readsCell_nil]
       exact hI
   | swapOff =>
     cases hs : s.swap
-    · simp [step, ghostStep, effectiveToggle, tscGhostStep, hs, readsCell_nil]
+    · simp [step, ghostStep, readWin, effectiveToggle, tscGhostStep, hs, readsCell_nil]
       exact hI
-    · simp [step, ghostStep, effectiveToggle, tscGhostStep, hs]
+    · simp [step, ghostStep, readWin, effectiveToggle, tscGhostStep, hs]
       exact inv_toggle_swap sc stt T s.toCore g gt false hI
   | qOff =>
-    simp only [step, ghostStep, effectiveToggle, tscGhostStep, readsCell_nil, Bool.false_eq_true, if_false]
+    simp only [step, ghostStep, readWin, effectiveToggle, tscGhostStep, readsCell_nil, Bool.false_eq_true, if_false]
     exact inv_qOff sc stt T s.toCore g gt hI
   | qOn =>
     cases hq : s.queries
-    · simp only [step, ghostStep, effectiveToggle, tscGhostStep, hq, Bool.not_false, if_true]
+    · simp only [step, ghostStep, readWin, effectiveToggle, tscGhostStep, hq, Bool.not_false, if_true]
       exact inv_qOn sc stt T s.toCore g gt hI hq
-    · simp only [step, ghostStep, effectiveToggle, tscGhostStep, hq, Bool.not_true, readsCell_nil,
+    · simp only [step, ghostStep, readWin, effectiveToggle, tscGhostStep, hq, Bool.not_true, readsCell_nil,
         Bool.false_eq_true, if_false]
       rw [qOnCore_noop _ hq]; exact hI
   | setRatio a =>
     cases a with
     | lit b =>
-      simp only [step, setCellRatio, ghostStep, effectiveToggle, tscGhostStep, Bool.false_eq_true, if_false]
+      simp only [step, setCellRatio, ghostStep, readWin, effectiveToggle, tscGhostStep, Bool.false_eq_true, if_false]
       by_cases hz : leZero b = true
       · simp only [hz, if_true, readsCell_nil, Bool.false_eq_true, if_false]
         exact hI
       · simp only [hz, Bool.false_eq_true, if_false, readsCell_nil]
         exact inv_ratio_some sc stt T _ g gt _ (lit_truthy b (by simpa using hz)) hI
     | fixed =>
-      simp only [step, setCellRatio, ghostStep, effectiveToggle, tscGhostStep, Bool.false_eq_true, if_false] at hp ⊢
+      simp only [step, setCellRatio, ghostStep, readWin, effectiveToggle, tscGhostStep, Bool.false_eq_true, if_false] at hp ⊢
       exact setAuto_inv sc stt T s true g gt hI hp
     | dynamic =>
-      simp only [step, setCellRatio, ghostStep, effectiveToggle, tscGhostStep, Bool.false_eq_true, if_false] at hp ⊢
+      simp only [step, setCellRatio, ghostStep, readWin, effectiveToggle, tscGhostStep, Bool.false_eq_true, if_false] at hp ⊢
       exact setAuto_inv sc stt T s false g gt hI hp
   | setAcr v =>
-    simp only [step, ghostStep, effectiveToggle, tscGhostStep, readsCell_nil, Bool.false_eq_true, if_false]
+    simp only [step, ghostStep, readWin, effectiveToggle, tscGhostStep, readsCell_nil, Bool.false_eq_true, if_false]
     exact hI
   | getCellSize =>
-    simp only [step, ghostStep, effectiveToggle, tscGhostStep, getCellSize_reads, Bool.false_eq_true, if_false,
+    simp only [step, ghostStep, readWin, effectiveToggle, tscGhostStep, getCellSize_reads, Bool.false_eq_true, if_false,
       if_true] at hp ⊢
     exact inv_getCellSize sc stt T s.toCore g gt hI (hp trivial)
+  | getCellSizeR p w =>
+    have hrd : readsCell (getCellSizeR T s.toCore p w).2.2 = true := getCellSize_reads T _
+    simp only [step, ghostStep, readWin, effectiveToggle, tscGhostStep, hrd, Bool.false_eq_true, if_false,
+      if_true] at hp ⊢
+    have hmok : (mixWin p s.win w).ok := by
+      have := hI.winOk
+      unfold mixWin Win.ok at *
+      split
+      · exact this
+      · split <;> exact this
+    have hI1 : Inv sc stt T { s.toCore with win := mixWin p s.win w } g gt :=
+      { winOk := hmok, gOk := hI.gOk, cell := hI.cell, colors := hI.colors, nv := hI.nv, tsc := hI.tsc
+        rColors := hI.rColors, rNv := hI.rNv, rProbe := hI.rProbe, ratio := hI.ratio }
+    have hI2 := inv_getCellSize sc stt T _ g gt hI1 (hp trivial)
+    exact { winOk := hr w (Or.inr ⟨p, rfl⟩), gOk := hI2.gOk, cell := hI2.cell, colors := hI2.colors, nv := hI2.nv
+            tsc := hI2.tsc, rColors := hI2.rColors, rNv := hI2.rNv, rProbe := hI2.rProbe, ratio := hI2.ratio }
   | getCellRatio =>
-    simp only [step, St.lift, ghostStep, effectiveToggle, tscGhostStep, Bool.false_eq_true, if_false] at hp ⊢
+    simp only [step, St.lift, ghostStep, readWin, effectiveToggle, tscGhostStep, Bool.false_eq_true, if_false] at hp ⊢
     rcases getCellRatio_cases T s.toCore with ⟨h1, h2⟩ | ⟨h1, h2⟩
     · rw [h1]; simp only [h2, Bool.false_eq_true, if_false]; exact hI
     · rw [h2] at hp; rw [h1]; simp only [h2, if_true]
       exact inv_getCellSize sc stt T s.toCore g gt hI (hp rfl)
   | getColors k =>
-    simp only [step, St.lift, ghostStep, effectiveToggle, tscGhostStep, getColors_reads, Bool.false_eq_true, if_false]
+    simp only [step, St.lift, ghostStep, readWin, effectiveToggle, tscGhostStep, getColors_reads, Bool.false_eq_true, if_false]
     exact inv_getColors sc stt T s.toCore k g gt hI
   | getNV =>
-    simp only [step, ghostStep, effectiveToggle, tscGhostStep, getNV_reads, Bool.false_eq_true, if_false]
+    simp only [step, ghostStep, readWin, effectiveToggle, tscGhostStep, getNV_reads, Bool.false_eq_true, if_false]
     exact inv_getNV sc stt T s.toCore g gt hI
   | isOnKitty =>
-    simp only [step, St.lift, isOnKitty, ghostStep, effectiveToggle, tscGhostStep, getNV_reads, Bool.false_eq_true,
+    simp only [step, St.lift, isOnKitty, ghostStep, readWin, effectiveToggle, tscGhostStep, getNV_reads, Bool.false_eq_true,
       if_false]
     exact inv_getNV sc stt T s.toCore g gt hI
   | kittySup =>
     obtain ⟨hc, hrd⟩ := kittySupported_core T s
-    simp only [step, ghostStep, effectiveToggle, tscGhostStep, hrd, Bool.false_eq_true, if_false]
+    simp only [step, ghostStep, readWin, effectiveToggle, tscGhostStep, hrd, Bool.false_eq_true, if_false]
     rcases hc with h | h <;> rw [h]
     · exact hI
     · exact inv_getNV sc stt T s.toCore g gt hI
   | itermSup =>
     obtain ⟨hc, hrd⟩ := itermSupported_core T s
-    simp only [step, ghostStep, effectiveToggle, tscGhostStep, hrd, Bool.false_eq_true, if_false]
+    simp only [step, ghostStep, readWin, effectiveToggle, tscGhostStep, hrd, Bool.false_eq_true, if_false]
     rcases hc with h | h <;> rw [h]
     · exact hI
     · exact inv_getNV sc stt T s.toCore g gt hI
   | tsc =>
-    simp only [step, St.lift, ghostStep, effectiveToggle, tscGhostStep, tscCall_reads, Bool.false_eq_true, if_false]
+    simp only [step, St.lift, ghostStep, readWin, effectiveToggle, tscGhostStep, tscCall_reads, Bool.false_eq_true, if_false]
     exact inv_tscCall sc stt T s.toCore g gt hI (hpt (Or.inl rfl))
   | tscRaise =>
-    simp only [step, St.lift, ghostStep, effectiveToggle, tscGhostStep, tscRaiseCall_reads, Bool.false_eq_true,
+    simp only [step, St.lift, ghostStep, readWin, effectiveToggle, tscGhostStep, tscRaiseCall_reads, Bool.false_eq_true,
       if_false, tscRaiseCall_state]
     exact hI
   | startProc =>
-    simp only [step, ghostStep, effectiveToggle, tscGhostStep, readsCell_nil, Bool.false_eq_true, if_false]
+    simp only [step, ghostStep, readWin, effectiveToggle, tscGhostStep, readsCell_nil, Bool.false_eq_true, if_false]
     exact hI
   | tscInval =>
-    simp only [step, ghostStep, effectiveToggle, tscGhostStep, readsCell_nil, Bool.false_eq_true, if_false]
+    simp only [step, ghostStep, readWin, effectiveToggle, tscGhostStep, readsCell_nil, Bool.false_eq_true, if_false]
     exact { winOk := hI.winOk, gOk := hI.gOk, cell := hI.cell, colors := hI.colors, nv := hI.nv, tsc := fun _ => Or.inl rfl
             rColors := hI.rColors, rNv := hI.rNv, rProbe := hI.rProbe, ratio := hI.ratio }
   | probe a =>
-    simp only [step, St.lift, ghostStep, effectiveToggle, tscGhostStep, probeCall_reads, Bool.false_eq_true, if_false]
+    simp only [step, St.lift, ghostStep, readWin, effectiveToggle, tscGhostStep, probeCall_reads, Bool.false_eq_true, if_false]
     exact inv_probeCall sc stt T s.toCore a g gt hI
   | probeInval =>
-    simp only [step, ghostStep, effectiveToggle, tscGhostStep, readsCell_nil, Bool.false_eq_true, if_false]
+    simp only [step, ghostStep, readWin, effectiveToggle, tscGhostStep, readsCell_nil, Bool.false_eq_true, if_false]
     exact { winOk := hI.winOk, gOk := hI.gOk, cell := hI.cell, colors := hI.colors, nv := hI.nv, tsc := hI.tsc
             rColors := hI.rColors, rNv := hI.rNv
             rProbe := by intro a; rfl
@@ -575,8 +592,14 @@ theorem inv_run (sc stt : Bool) (T : Term) (s : St) (g gt : Option Win) (h : Lis
     · apply inv_step sc stt T s g gt op hI
       · intro hrd hst; exact (hp hst).1 hrd
       · intro hop hst; exact (hpt hst).1 hop
-      · intro w hw; exact hr w (by simp [hw])
-    · intro w hw; exact hr w (List.mem_cons_of_mem _ hw)
+      · intro w hw
+        rcases hw with hw | ⟨p, hw⟩
+        · exact hr w (Or.inl (by simp [hw]))
+        · exact hr w (Or.inr ⟨p, by simp [hw]⟩)
+    · intro w hw
+      rcases hw with hw | ⟨p, hw⟩
+      · exact hr w (Or.inl (List.mem_cons_of_mem _ hw))
+      · exact hr w (Or.inr ⟨p, List.mem_cons_of_mem _ hw⟩)
     · intro hst; exact (hp hst).2
     · intro hst; exact (hpt hst).2
 
